@@ -365,6 +365,11 @@ func (ic *inferContext) inferRelTypesFromClause() (ast.BaseTerm, error) {
 		headTuple := make([]ast.BaseTerm, len(clause.Head.Args))
 		for i, arg := range clause.Head.Args {
 			headTuple[i] = boundOfArg(arg, s.asMap(), ic.bc.nameTrie)
+			if headTuple[i].Equals(symbols.EmptyType) {
+				// The empty type stands for "could not be typed"; it must not count as
+				// conforming to every declared bound.
+				return nil, fmt.Errorf("cannot determine a type for head argument %v of %v", arg, clause)
+			}
 		}
 		relTypes = append(relTypes, symbols.NewRelType(headTuple...))
 	}
